@@ -837,8 +837,66 @@ fn builders_case(c: &mut Ctx, fam: &str, idx: u64, rng: &mut Rng) {
 /// octets over a compact serde format and must hold them to the same limits as their other
 /// constructors: a value that comes out has to compose to exactly the octets its length field
 /// announces. Reference verdicts are plain restatements of the RFC limits.
+/// TXT data over a human readable format, where it is a string or a sequence of strings: each element is a character
+/// string - at most 255 octets - and what comes out is well-formed TXT data holding exactly the elements, or a refusal.
+fn txt_human_readable(c: &mut Ctx, fam: &str, idx: u64, rng: &mut Rng) {
+    use domain::rdata::Txt;
+    let n = rng.range(1, 4);
+    let lens: Vec<usize> = (0..n).map(|_| *rng.pick(&[0usize, 1, 7, 200, 254, 255, 255, 256, 256, 257, 300, 511, 512, 600])).collect();
+    let elems: Vec<String> = lens.iter().map(|l| (0..*l).map(|i| (b'a' + ((i + l) % 26) as u8) as char).collect()).collect();
+    let as_seq = n > 1 || rng.bool();
+    let v = if as_seq { serde_json::Value::Array(elems.iter().map(|e| serde_json::Value::String(e.clone())).collect()) } else { serde_json::Value::String(elems[0].clone()) };
+    let ex = json!({"route": "human-readable", "form": if as_seq { "sequence" } else { "string" }, "element_lengths": lens});
+    let r = c.guard(fam, idx, || ex.clone(), || {
+        serde_json::from_value::<Txt<Vec<u8>>>(v).ok().map(|t| {
+            let mut rd = Vec::new();
+            let composed = t.compose_rdata(&mut rd).is_ok();
+            let strings: Option<Vec<Vec<u8>>> = std::panic::catch_unwind(std::panic::AssertUnwindSafe(|| t.iter().map(|x| x.to_vec()).collect())).ok();
+            (rd, composed, strings)
+        })
+    });
+    let Some(r) = r else { return };
+    c.eval(&("txt-human", as_seq, lens.iter().map(|l| (*l).min(257)).collect::<Vec<_>>(), r.is_some()));
+    let fits = lens.iter().all(|l| *l <= 255);
+    match r {
+        None => {
+            if fits && as_seq {
+                c.violation("serde-reject-valid:Txt:human-readable", &format!("a sequence of strings of {:?} octets, each a character string, is refused as TXT data", lens), c.replay_of(fam, idx, ex));
+            } else {
+                c.count("txt_human_readable_refused", 1);
+            }
+        }
+        Some((rd, composed, strings)) => {
+            // what was accepted is TXT data: framed strings of at most 255 octets ...
+            let mut p = 0;
+            let mut parts: Vec<Vec<u8>> = Vec::new();
+            let mut ok = composed;
+            while ok && p < rd.len() {
+                let l = rd[p] as usize;
+                if p + 1 + l > rd.len() {
+                    ok = false;
+                    break;
+                }
+                parts.push(rd[p + 1..p + 1 + l].to_vec());
+                p += 1 + l;
+            }
+            let content: Vec<u8> = parts.concat();
+            let want: Vec<u8> = elems.iter().flat_map(|e| e.bytes()).collect();
+            // ... holding the elements (a single long string may be cut into several)
+            if !ok || content != want || strings.as_ref().map(|s| s.concat()) != Some(want.clone()) || (fits && as_seq && parts != elems.iter().map(|e| e.as_bytes().to_vec()).collect::<Vec<_>>() && !want.is_empty()) {
+                c.violation("serde-value-malformed:Txt:human-readable", &format!("strings of {:?} octets ({}) give TXT data of {} octets that {}", lens, if as_seq { "a sequence" } else { "one string" }, rd.len(), if !ok { "is not a sequence of character strings" } else { "holds other content than the elements" }), c.replay_of(fam, idx, ex));
+            } else {
+                c.count("txt_human_readable_values", 1);
+            }
+        }
+    }
+}
+
 fn serde_fields(c: &mut Ctx, fam: &str, idx: u64, rng: &mut Rng) {
     use crate::sd::{self, Wrote};
+    if idx % 5 == 0 {
+        txt_human_readable(c, fam, idx, rng);
+    }
     use domain::base::charstr::CharStr;
     use domain::rdata::caa::CaaTag;
     use domain::rdata::dnssec::RtypeBitmap;
